@@ -64,7 +64,7 @@ func c03observe(t *c03trie) string {
 
 // c03integrity checks pending-change integrity of a trie: every recorded change is keyed by the hash of its own
 // encoding and the node stored in the trie's current level under that key has the same encoding.
-func c03integrity(t *c03trie) string {
+func c03integrity(c *fw.Ctx, t *c03trie) string {
 	cc, ok := t.t.ChangeCollector.(*util.ChangeCollector)
 	if !ok {
 		return ""
@@ -93,6 +93,46 @@ func c03integrity(t *c03trie) string {
 			}
 			if !bytes.Equal(sn.Encode(), enc) {
 				return fmt.Sprintf("node stored under %s encodes to %x, the pending change to %x", h, sn.Encode(), enc)
+			}
+		}
+	}
+	// the collector against reachability: whatever the current root reaches is either available below this trie's own
+	// level or among the pending new nodes (a save / merge of the pending set would otherwise be incomplete); no node
+	// recorded as deleted is reachable from the current root. (The delete set may also name intermediate nodes that never
+	// existed below - a node created by one merged child and replaced by the next - which is harmless and not judged.)
+	// Views of a trie with a stale ancestor are not judged.
+	judged := true
+	for a := t; a != nil; a = a.parent {
+		if a.stale || a.closed {
+			judged = false
+		}
+		// a trie whose parent has written since it was opened is stale as well (its merge will be refused): the parent may
+		// have dropped nodes of the root it was opened at
+		if a.parent != nil && !bytes.Equal(a.parent.t.GetRoot(), a.openRoot) {
+			judged = false
+		}
+	}
+	if lndb != nil && judged {
+		c.Count("collector_vs_reachability_checks", 1)
+		reach, missing := lab.Walk(t.t.GetNodeDB(), t.t.GetRoot())
+		if len(missing) > 0 {
+			return fmt.Sprintf("%d node(s) reachable from the current root are absent from the trie's store (first %x)", len(missing), missing[0])
+		}
+		reachable := map[string]bool{}
+		for _, n := range reach {
+			h := hex.EncodeToString(n.Key)
+			reachable[h] = true
+			if _, pending := byHash[h]; pending {
+				continue
+			}
+			if bn, err := lndb.GetPrev().GetNode(n.Key); err != nil || bn == nil {
+				return fmt.Sprintf("node %s at %q is reachable from the current root, not available below this trie's level and not among its pending changes", h, n.Path)
+			}
+		}
+		for _, d := range t.t.GetDeletes() {
+			h := d.GetHash()
+			if reachable[h] {
+				return fmt.Sprintf("node %s is recorded as deleted but reachable from the current root", h)
 			}
 		}
 	}
@@ -292,7 +332,7 @@ func runC03(c *fw.Ctx) {
 			if !compareOthers(before, "an operation inside "+t.name) {
 				return
 			}
-			if f := c03integrity(t); f != "" {
+			if f := c03integrity(c, t); f != "" {
 				fail("%s: %s", t.name, f)
 				return
 			}
@@ -391,7 +431,7 @@ func runC03(c *fw.Ctx) {
 				if !bytes.Equal(parRoot, childRoot) {
 					markStale(par, t)
 				}
-				if f := c03integrity(par); f != "" {
+				if f := c03integrity(c, par); f != "" {
 					fail("%s after merge of %s: %s", par.name, t.name, f)
 					return
 				}
@@ -430,7 +470,7 @@ func runC03(c *fw.Ctx) {
 		fail("block state at the end: %s", f)
 		return
 	}
-	if f := c03integrity(P); f != "" {
+	if f := c03integrity(c, P); f != "" {
 		fail("P at the end: %s", f)
 		return
 	}
@@ -502,7 +542,7 @@ func init() {
 		Rule: "each case is one block history: a base state (memory or persistent store), a block trie P layered over it, and 6..24 (quick) / 6..46 (thorough) steps drawn from {open a child of P or a grandchild, 1-3 insert/delete operations inside an open child, " +
 			"a direct write on P, merge a child into its parent (fresh or stale; MergeMPTChanges, or for a quarter MergeChanges with the child's GetChanges()), discard a child}; several children are open at the same time. Two wirings alternate: a fresh cache per trie, and one block cache shared by per-trie transaction caches committed on merge. " +
 			"Monitors: child view == parent-at-open ⊕ own writes (map model, after every child operation); the observation tuple (root, Iterate content, pending changes hash->encoding/old hash, pending deletes, start root) of every other open trie is byte-identical " +
-			"before/after child operations, discards and rejected merges; a stale merge must be rejected; after a successful merge parent root/content == child's; pending changes are keyed by the hash of their encoding and equal the stored node; at the end of half of the blocks the pending changes are saved on top of a copy of the base state and a fresh trie must read the block's content from that store alone. " +
+			"before/after child operations, discards and rejected merges; a stale merge must be rejected; after a successful merge parent root/content == child's; pending changes are keyed by the hash of their encoding and equal the stored node; after every child operation and merge, for tries none of whose ancestors has moved on: every node reachable from the current root (walked in the store, not through the cache) is available below the trie's own level or is one of its pending new nodes, and no node recorded as deleted is reachable; at the end of half of the blocks the pending changes are saved on top of a copy of the base state and a fresh trie must read the block's content from that store alone. " +
 			"non-trivial = block with at least one successful merge and at least one discard or stale merge; distinct by trace hash",
 		Cases: func(tier string) int {
 			if tier == "thorough" {
@@ -511,7 +551,7 @@ func init() {
 			return 40000
 		},
 		Run:    runC03,
-		Floors: map[string]int64{"blocks": 20000, "merges": 20000, "discards": 10000, "stale_merges": 2000, "tuple_comparisons": 100000, "child_ops": 100000, "blocks_with_grandchildren": 2000, "merges_via_MergeChanges": 5000, "blocks_saved_and_reread": 15000, "earlier_values_reinserted": 20000},
+		Floors: map[string]int64{"collector_vs_reachability_checks": 100000, "blocks": 20000, "merges": 20000, "discards": 10000, "stale_merges": 2000, "tuple_comparisons": 100000, "child_ops": 100000, "blocks_with_grandchildren": 2000, "merges_via_MergeChanges": 5000, "blocks_saved_and_reread": 15000, "earlier_values_reinserted": 20000},
 		Assumptions: []string{
 			"after a parent's root moves (successful merge of a sibling or direct write), the remaining children are stale: only the rejection of their merge and the parent's unchangedness are checked, not their views",
 			"a stale child whose merge would change the parent must be rejected with an error (accepting it silently drops a published sibling)",
